@@ -547,13 +547,15 @@ impl Loop3D {
                 // the edge lies on the ray: the edges before and after it decide
             } else if a_on {
                 // the ray leaves the vertex at the start of the edge: count it if the edge is on the counted side
+                // (`d x edge` is parallel to the normal by construction, only its sign matters; `is_same_direction`
+                // would also ask `is_parallel`, whose absolute bound fails for loops a few hundred units across)
                 let side_normal = d.cross(segment_ab.as_vector3d());
-                if side_normal.is_same_direction(self.normal) {
+                if side_normal * self.normal > 0. {
                     n_cross += 1
                 }
             } else if b_on {
                 let side_normal = d.cross(segment_ab.as_reversed_vector3d());
-                if side_normal.is_same_direction(self.normal) {
+                if side_normal * self.normal > 0. {
                     n_cross += 1
                 }
             } else if let Some((t_a, t_b)) = segment_ab.get_intersection_pt(&ray) {
